@@ -222,6 +222,7 @@ def _may_raise(st):
 
 
 def r3_undo_on_failure(ctx):
+    _handler_catches_all(ctx)
     init, close = _init_close(ctx)
     muts = [_stmt_of(n) for n, *_ in table_mutations(init)]
     if not muts:
@@ -319,6 +320,9 @@ def r4_lexical_scopes(ctx):
                     n += 1
                     par = call._parent
                     ok = isinstance(par, ast.withitem) and par.context_expr is call
+                    if isinstance(par, ast.IfExp) and call in (par.body, par.orelse) and isinstance(getattr(par, "_parent", None), ast.withitem) \
+                            and par._parent.context_expr is par:
+                        ok = True                # `with A if c else UnitEnvironment(...):` - the selected manager is entered at once
                     if not ok and isinstance(par, ast.Assign) and isinstance(par.targets[0], ast.Name) and fn is not None:
                         v = par.targets[0].id
                         for tr in [t for t in ast.walk(fn) if isinstance(t, ast.Try) and t.finalbody]:
@@ -420,6 +424,27 @@ def r6_no_derived_state(ctx):
     serving a custom unit's old definition after its scope ended and the symbol was registered again."""
     K.hidden_module_state(ctx, ["src/scinumtools/units", "src/scinumtools/dip"], UNITS_STATE_OWNERS,
                           "a value derived from the unit tables must not outlive the scope that registered the unit")
+
+
+def _handler_catches_all(ctx):
+    """The rollback of a failed registration sits in an except clause.  It has to run for *every* way the registration
+    can stop - also KeyboardInterrupt / SystemExit - so the clause is bare or names BaseException; `except Exception`
+    leaves the units registered when the loop is interrupted."""
+    fn = ctx.fn(UE, "UnitEnvironment.__init__")
+    what = "the rollback handler of the registration catches every exception (bare except / BaseException)"
+    hs = [h for t in ast.walk(fn) if isinstance(t, ast.Try) for h in t.handlers if any(isinstance(c, ast.Call) and norm(c.func) == "self.close" for c in ast.walk(h))]
+    fin = [t for t in ast.walk(fn) if isinstance(t, ast.Try) and any(isinstance(c, ast.Call) and norm(c.func) == "self.close" for f_ in t.finalbody for c in ast.walk(f_))]
+    if not hs and not fin:
+        ctx.form(False, UE, "UnitEnvironment.__init__", what, detail="no handler that calls self.close()")
+        return
+    for h in hs:
+        t = None if h.type is None else norm(h.type)
+        if t is None or t == "BaseException":
+            ctx.holds(UE, "UnitEnvironment.__init__", what)
+        elif t in ("Exception", "(Exception,)") or t.startswith("("):
+            ctx.violated(UE, "UnitEnvironment.__init__", what, detail=f"except {t}", expected="except: / except BaseException:")
+        else:
+            ctx.violated(UE, "UnitEnvironment.__init__", what, detail=f"except {t}", expected="except: / except BaseException:")
 
 
 def _conversions_get_env(ctx):
